@@ -58,6 +58,8 @@ class Signable:
 
     @classmethod
     def from_bytes(cls, data: bytes):
+        if not data:
+            raise DecodeError('Empty payload.')
         signable = cls()
         if data[0] == 0:
             signable.message.ParseFromString(data[1:])
